@@ -329,6 +329,11 @@ func Bound(name string, def int) int {
 // (reported under the label "panic").
 func NoPanic() {}
 
+// NoModel switches the named Go-source environment models off for this run, so that the
+// real code they stand for is executed (C02 executes the real AEAD framing that the other
+// harnesses replace by the ideal cipher). Natively a no-op: models are never used natively.
+func NoModel(names ...string) {}
+
 // ---- uninterpreted functions ----
 
 // UFBool applies the uninterpreted predicate name to the arguments (ints and strings).
